@@ -45,6 +45,8 @@ def progs_get():
     # repeated static names: each one is a statement of its own
     out.append([("_HEADER", b"Accept: a"), ("_HEADER", b"Accept: b"), ("_PARAMETER", b"id=first"), ("_PARAMETER", b"id=second"), ("BUILD", 0), ("BASE64", None), ("HEADER", b"Cookie")])
     out.append([("_HEADER", b"X: 1"), ("_HOSTHEADER", b"Host: h"), ("_HEADER", b"X: 1"), ("BUILD", 0), ("PRINT", None)])
+    # a static Host header set by the profile AND the listener's host header: both are stated, in program order
+    out.append([("_HEADER", b"Host: a.example"), ("_HEADER", b"X: 1"), ("_HOSTHEADER", b"Host: front.example"), ("_HEADER", b"host: b.example"), ("BUILD", 0), ("BASE64", None), ("HEADER", b"Cookie")])
     # static parameters are name=value text, not a query string: '+', '%XX' and '&' are ordinary characters
     out.append([("_PARAMETER", b"q=cobalt+strike"), ("_PARAMETER", b"x=1&y=2"), ("_PARAMETER", b"p=%41%zz"), ("_PARAMETER", b"e="), ("BUILD", 0), ("BASE64URL", None), ("HEADER", b"Cookie")])
     # the name ends at the first ": "; everything after it is the value - leading blanks, further colons and all
@@ -57,6 +59,7 @@ def progs_post():
     for arg in HOSTILE:
         out.append([("BUILD", 0), ("APPEND", arg), ("PARAMETER", b"id"), ("BUILD", 1), ("PREPEND", arg), ("MASK", None), ("PRINT", None)])
     out.append([("_HEADER", b"A: 1"), ("_HEADER", b"A: 2"), ("_PARAMETER", b"p=1"), ("_PARAMETER", b"p=2"), ("BUILD", 0), ("PARAMETER", b"id"), ("BUILD", 1), ("PRINT", None)])
+    out.append([("_HEADER", b"HOST: a.example"), ("_HOSTHEADER", b"Host: front.example"), ("BUILD", 0), ("PARAMETER", b"id"), ("BUILD", 1), ("PRINT", None)])
     out.append([("_PARAMETER", b"q=a+b"), ("_PARAMETER", b"x=1&y=2%20"), ("BUILD", 0), ("PARAMETER", b"id"), ("BUILD", 1), ("PRINT", None)])
     out.append([("_HEADER", b"X-Lead:  two"), ("_HEADER", b"Na:me: v"), ("_PARAMETER", b"p= v"), ("BUILD", 0), ("PARAMETER", b"id"), ("BUILD", 1), ("PRINT", None)])
     out.append([("_HEADER", b"Content-Type: text/plain"), ("_PARAMETER", b"a=b=c"), ("BUILD", 0), ("NETBIOS", None), ("HEADER", b"X-Id"), ("BUILD", 1), ("BASE64URL", None), ("URI_APPEND", None)])
